@@ -165,6 +165,14 @@ class FakeBroker:
         return tasks
 
 
+def _ha_internal(handle):
+    """Timers of Home Assistant's own helpers (storage delayed writes, debouncers, interval trackers)."""
+    cb = handle._callback
+    owner = getattr(cb, "__self__", None)
+    mod = type(owner).__module__ if owner is not None and not isinstance(owner, type(asyncio)) else getattr(cb, "__module__", "")
+    return (mod or "").startswith("homeassistant.")
+
+
 class LogCapture(logging.Handler):
     def __init__(self):
         super().__init__(level=logging.DEBUG)
@@ -373,7 +381,8 @@ class World:
     # -- observation --------------------------------------------------------------------------
     def census(self, horizon=50_000.0):
         hass = self.hass
-        listeners = {k: v for k, v in hass.bus.async_listeners().items() if v}
+        # (homeassistant_final_write belongs to HA's storage helper and comes and goes with its delayed writes)
+        listeners = {k: v for k, v in hass.bus.async_listeners().items() if v and k != "homeassistant_final_write"}
         services = {d: sorted(s) for d, s in hass.services.async_services().items() if s}
         tasks = [t for t in asyncio.all_tasks(self.loop) if not t.done()]
         return {
@@ -386,7 +395,7 @@ class World:
             "mqtt_notify": {k: len(v) for k, v in sorted(Mqtt.notify.items()) if v},
             "webhook_notify": {k: len(v) for k, v in sorted(Webhook.notify.items()) if v},
             "tasks": len(tasks),
-            "timers": len(self.loop.pending_timers(within=horizon)),
+            "timers": len([h for h in self.loop.pending_timers(within=horizon) if not _ha_internal(h)]),
             "our_tasks": len([t for t in Function.our_tasks if not t.done()]),
         }
 
